@@ -252,7 +252,11 @@ func XOR(a, b SortedInts) SortedInts {
 //Complement returns a new SortedInts containing the elements in {0,..., n-1} but not a.
 //a is not modified.
 func Complement(n int, a SortedInts) SortedInts {
-	b := make([]int, 0, n-len(a))
+	capacity := n - len(a)
+	if capacity < 0 {
+		capacity = 0
+	}
+	b := make([]int, 0, capacity)
 	aIndex := 0
 	i := 0
 	for i < n && aIndex < len(a) {
